@@ -17,7 +17,7 @@ func runC04(e *Env) error {
 	rg := e.Rng
 	r.Rule = "(a) tag-free byte strings render as themselves; (b) literal chunks (multi-byte, invalid UTF-8, NUL, lone braces, %, quotes, line breaks) interleaved with print tags of marker variables and comments: " +
 		"output = chunks interleaved with values, each chunk exactly once and in order; (c) comment bodies containing tags/calls are never evaluated (spy counters); (d) verbatim bodies render the same under different contexts; " +
-		"(e) chunks around tags with partly scannable content (unclosed quotes, backslashes, bytes without a scanner rule, empty tags): model and unit-by-unit concatenation; (f) *Template objects held across re-registration, other parses and setting changes keep rendering their own text; (g) comment-shaped sources (escaped openers, comment syntax in string literals, comments next to trimming delimiters) and every generated source by every route into an engine (compiled forms, loaders, pre-parsed templates) render as the directly parsed source; (h) templates parsed by 8 goroutines at once on 1 and 2 processors render their own lines only; every case also goes through the Lean pipeline model; non-trivial = has at least one tag and one non-empty chunk; distinct by source"
+		"(e) chunks around tags with partly scannable content (unclosed quotes, backslashes, bytes without a scanner rule, empty tags): model and unit-by-unit concatenation; (f) *Template objects held across re-registration, other parses and setting changes keep rendering their own text; (g) comment-shaped sources (escaped openers, comment syntax in string literals, comments next to trimming delimiters) and every generated source by every route into an engine (compiled forms, loaders, pre-parsed templates) render as the directly parsed source; (h) templates parsed by 8 goroutines at once on 1 and 2 processors render their own lines only; (i) every delimiter spelling next to every byte class, and every generated case, also as part of a template padded with plain text to 4096, 4097 and 5200 bytes, behind and in front: render(S+F) = render(S)+F; (j) the same bodies in every position of a template set (blocks, included templates and their blocks, extends chains, loops), each rendered right after histories of unrelated templates that reuse its block, macro and variable names, on the same and on another engine; every case also goes through the Lean pipeline model; non-trivial = has at least one tag and one non-empty chunk; distinct by source"
 	// (a) tag-free text
 	n := e.N(400, 20000)
 	for i := 0; i < n && !r.Full(); i++ {
@@ -40,8 +40,16 @@ func runC04(e *Env) error {
 	}
 	// (a') literal text longer than the output buffers (32 KiB steps), multi-byte, through Render and RenderTo
 	bigTextOracle(e)
+	// (i) every delimiter spelling next to every byte class, in small and in large templates (c04_sizes.go): the sweep
+	if err := c04SizeSweep(e); err != nil {
+		return err
+	}
 	// (g) comment-shaped sources, and every source by every route into an engine (c04_routes.go): the corpus
 	if err := commentShapedCorpus(e); err != nil {
+		return err
+	}
+	// (j) literal text in every position of a template set, rendered after histories that reuse its names (c04_positions.go)
+	if err := c04PositionCases(e); err != nil {
 		return err
 	}
 	// (b)+(c) chunks, print tags, comments
